@@ -6,6 +6,7 @@ package vsync
 import (
 	"context"
 	"fmt"
+	"reflect"
 	"sort"
 
 	"google.golang.org/grpc"
@@ -56,32 +57,77 @@ type RecvCase[T any] struct {
 func Recv[T any](ch <-chan T) *RecvCase[T] { return &RecvCase[T]{ch: ch} }
 
 //go:norace
+func (r *RecvCase[T]) ChanID() uintptr { return reflect.ValueOf(r.ch).Pointer() }
+
+//go:norace
+func (r *RecvCase[T]) Deliver(v any) bool {
+	x, ok := v.(T)
+	if !ok {
+		return false
+	}
+	r.V, r.OK = x, true
+	return true
+}
+
+//go:norace
 func (r *RecvCase[T]) Try() bool {
 	select {
 	case v, ok := <-r.ch:
 		r.V, r.OK = v, ok
 		return true
 	default:
-		return false
 	}
+	if r.ch != nil && cap(r.ch) == 0 {
+		if k := kern.Cur(); k != nil && k.Me() != nil {
+			if v, ok := k.RendezvousRecv(r.ChanID()); ok {
+				return r.Deliver(v)
+			}
+		}
+	}
+	return false
 }
 
 type SendCase[T any] struct {
-	ch chan<- T
-	v  T
+	ch   chan<- T
+	v    T
+	sent bool
 }
 
 //go:norace
 func Send[T any](ch chan<- T, v T) *SendCase[T] { return &SendCase[T]{ch: ch, v: v} }
 
 //go:norace
+func (s *SendCase[T]) ChanID() uintptr { return reflect.ValueOf(s.ch).Pointer() }
+
+//go:norace
+func (s *SendCase[T]) Take() (any, bool) {
+	if s.sent {
+		return nil, false
+	}
+	s.sent = true
+	return s.v, true
+}
+
+//go:norace
 func (s *SendCase[T]) Try() bool {
+	if s.sent {
+		return true
+	}
 	select {
 	case s.ch <- s.v:
+		s.sent = true
 		return true
 	default:
-		return false
 	}
+	if s.ch != nil && cap(s.ch) == 0 {
+		if k := kern.Cur(); k != nil && k.Me() != nil {
+			if k.RendezvousSend(s.ChanID(), s.v) {
+				s.sent = true
+				return true
+			}
+		}
+	}
+	return false
 }
 
 // Select returns the index of the clause that fired or -1 for default.
